@@ -13,20 +13,20 @@ COMMON_NOTE = ("Trusted: Lean 4.33 kernel; axioms propext, Classical.choice, Quo
                "disagrees with the reference semantics); rustc itself for accept/reject, typing, const evaluation, layout and lints. ")
 
 T = {
- "C01": ("Bb.C01.getter_contiguous: for every well-formed base (u8..u128, u1..u127), every accepted contiguous scalar field, every raw value and both profiles the generated getter evaluates to `field raw lo n` presented as the field type; getter_bits / getter_ignores_other_bits give the bit-level reading (bit k weighs 2^k, nothing outside the range matters). Unbounded in widths, positions and values.", "§6 C01"),
- "C02": ("Bb.C02.with_contiguous / with_bits / read_back / set_eq_with: with_ (and set_, the same expression) yields the register whose field positions hold v and whose other positions hold the receiver's bits; reading back gives v; full-width fields included (eval_setterNewRawValue covers all seven setter templates).", "§6 C02"),
+ "C01": ("Bb.C01.getter_contiguous: for every well-formed base (u8..u128, u1..u127), every accepted contiguous scalar field, every raw value and both profiles the generated getter evaluates to `field raw lo n` presented as the field type; getter_bits / getter_ignores_other_bits give the bit-level reading (bit k weighs 2^k, nothing outside the range matters). Unbounded in widths, positions and values. Prog.accepted_getter: the same for every field of every accepted declaration (hypotheses: accepted, in-range index, no bit named twice).", "§6 C01"),
+ "C02": ("Bb.C02.with_contiguous / with_bits / read_back / set_eq_with: with_ (and set_, the same expression) yields the register whose field positions hold v and whose other positions hold the receiver's bits; reading back gives v; full-width fields included (eval_setterNewRawValue covers all seven setter templates). Prog.accepted_setter: declaration-level form.", "§6 C02"),
  "C03": ("Bb.C03.array_get / array_with / array_isolation / array_get_oob / array_with_oob: element i is read and written at offset i*stride, a write leaves every position outside element i alone (so other elements and fields), and an index >= K panics in getter, with_ and set_ under both profiles before anything else is evaluated.", "§6 C03"),
  "C04": ("Bb.C04.list_get (any list, Σlen ≤ W), gather_bits, list_with / scatter_inside / scatter_outside / scatter_gather (pairwise disjoint lists, as the property states): declaration-order concatenation on read, exact scatter on write, round trip; arrays of lists with explicit stride through the element offset.", "§6 C04"),
  "C05": ("Bb.C05.signed_get / signed_with / no_sign_leak / signed_read_back / toInt_injective: an iN field reads as the iN with the field's N-bit pattern, writing any pattern (negative values included) stores exactly it and changes no other bit of the W-bit storage; plain, array and non-contiguous alike.", "§6 C05"),
- "C06": ("Bb.C06.raw_roundtrip / raw_value_of_storage / zero_raw / default_raw / default_too_large / storage_least: new_with_raw_value(r).raw_value() = r for native and arbitrary bases, ZERO is 0, DEFAULT_RAW_VALUE is the declared value (all bits), storage is the least native width. Copy/size/align are compiler-checked in the correspondence crates, not modelled.", "§6 C06"),
+ "C06": ("Bb.C06.raw_roundtrip / raw_value_of_storage / zero_raw / default_raw / default_too_large / storage_least: new_with_raw_value(r).raw_value() = r for native and arbitrary bases, ZERO is 0, DEFAULT_RAW_VALUE is the declared value (all bits), storage is the least native width. Copy/size/align are compiler-checked in the correspondence crates, not modelled. The argument list of #[bitfield(…)] is modelled (Macro/Args.lean) and the default forms are theorems: args_default_lit / args_default_const for `=` and `:`, args_no_default, args_last_default_wins, args_unknown_ignored, args_default_errors; Prog.accepted_default: for every accepted declaration the declared default is the program's default, fits the base and DEFAULT_RAW_VALUE evaluates to it.", "§6 C06"),
  "C07": ("Bb.C07: new_with_raw_value(x) returns the variant whose discriminant is x, Err(x) when there is none, never panics for accepted non-exhaustive enums; exhaustive enums are total by pigeonhole over the accepted declaration; raw_value() is the discriminant; the two conversions are mutually inverse.", "§6 C07"),
  "C08": ("Bb.C08.custom_get / custom_with, parametric in the user type's two conversion functions: the getter is T::new_with_raw_value(presented field bits) (Option<E>: the Result passed through), the setter writes value.raw_value() into exactly the field's bits; 1-bit, arbitrary and native widths, arrays and lists through the general accessor theorems.", "§6 C08"),
- "C09": ("Bb.C09.field_accept_iff / accept_iff_rules / accepted_fieldOk: parseField accepts a field declared with a well-formed bit/bits attribute (rendered to tokens and read back by the ArgumentParser model) iff the rule set RuleValid holds (ranges lo ≤ hi, type width = Σ range lengths, bool exactly one bit, arrays ≥ 2 elements with stride ≥ width / mandatory for lists, every addressed bit below the exposed base width), and acceptance implies FieldOk, the premise of all accessor theorems.", "§6 C09"),
- "C10": ("Bb.C10: bitenumCheck accepts iff EnumValid (size 1..=64, explicit literal discriminants < 2^N, exhaustive=true iff all 2^N present, false/omitted iff fewer, more than 2^N or cfg-gated variants only under conditional).", "§6 C10"),
+ "C09": ("Bb.C09.field_accept_iff / accept_iff_rules / accepted_fieldOk: parseField accepts a field declared with a well-formed bit/bits attribute (rendered to tokens and read back by the ArgumentParser model) iff the rule set RuleValid holds (ranges lo ≤ hi, type width = Σ range lengths, bool exactly one bit, arrays ≥ 2 elements with stride ≥ width / mandatory for lists, every addressed bit below the exposed base width), and acceptance implies FieldOk, the premise of all accessor theorems. field_accept_iff_any_order: the same equivalence for all six orders of range / access specifier / stride; range_tokens_from_text: decimal literal text ↦ token value; expand_fields_ok: every field of every accepted declaration satisfies FieldOk.", "§6 C09"),
+ "C10": ("Bb.C10: bitenumCheck accepts iff EnumValid (size 1..=64, explicit literal discriminants < 2^N, exhaustive=true iff all 2^N present, false/omitted iff fewer, more than 2^N or cfg-gated variants only under conditional). config_parse_bits: the storage argument `u<n>` is read as size n.", "§6 C10"),
  "C11": ("Bb.C11.inv_new / inv_step / inv_reachable / raw_value_total / rewrap_id / getter_reads_below: the storage stays below 2^N through every history of accepted writes (all accepted fields, lists with repeated bits included), raw_value() never panics, and new_with_raw_value(x.raw_value()) has the same storage as x.", "§6 C11"),
- "C12": ("Bb.C12.history / history_runs / disjoint_commute / overlap_alias: every legal history of with_/set_ calls runs under both profiles and each bit of the final register is the bit of the last write covering it, else the initial bit (induction over the operation list, unbounded length).", "§6 C12"),
- "C13": ("Bb.C13: evaluating the generated builder chain equals folding with_ over the writable fields in declaration order from DEFAULT (or zero), arrays unrolled in index order; bits covered by no writable field keep the start value.", "§6 C13"),
- "C14": ("Bb.C14: the macro's mask arithmetic computes the covered positions, the self-overlap loop finds exactly double coverage, builder() is offered iff no position is writable twice and (default or full coverage); the emitted impl blocks form a strictly increasing mask chain with build only on the last.", "§6 C14"),
+ "C12": ("Bb.C12.history / history_runs / disjoint_commute / overlap_alias: every legal history of with_/set_ calls runs under both profiles and each bit of the final register is the bit of the last write covering it, else the initial bit (induction over the operation list, unbounded length). write_keeps_uncovered: a write through any accepted list, also one naming a bit twice, leaves uncovered positions alone; Prog.accepted_history: the same for histories against an accepted declaration with only user-visible hypotheses.", "§6 C12"),
+ "C13": ("Bb.C13: evaluating the generated builder chain equals folding with_ over the writable fields in declaration order from DEFAULT (or zero), arrays unrolled in index order; bits covered by no writable field keep the start value. Prog.accepted_builder: for an accepted declaration that offers a builder, every well-typed argument tuple runs from DEFAULT/zero to the last-write-wins register of its calls.", "§6 C13"),
+ "C14": ("Bb.C14: the macro's mask arithmetic computes the covered positions, the self-overlap loop finds exactly double coverage, builder() is offered iff no position is writable twice and (default or full coverage); the emitted impl blocks form a strictly increasing mask chain with build only on the last. Prog.accepted_builder derives the legality of every builder call from builder_offered_iff.", "§6 C14"),
  "C15": ("Bb.C15 (partial): every listed item of the model program is emitted const and its body uses only const-evaluable constructs; that rustc's const evaluator accepts them and agrees with run time is compiler-checked on const items in the correspondence crates.", "§6 C15"),
  "C16": ("Bb.C16.getter_total_partial / setter_total_partial / checked_implies_unchecked / oob_both / history_profile_independent / wide_of_disjoint (+ kf1_witness): under Σlen ≤ W (always true without repeated bits) no generated accessor panics for any raw value, value or in-range index and both profiles give the same result; the only panic is the index assertion. KF1 (lists wider than the storage) is a recorded known finding.", "§6 C16"),
  "C17": ("Bb.C17: the accessor items the model emits for a field are exactly those its access specifier allows (r: getter; w: with_/set_ + builder step; rw: both; none: neither); read-only positions are changed by no emitted mutator, write-only positions are read by no emitted getter.", "§6 C17"),
